@@ -239,8 +239,20 @@ func propC01(rec *ev.Recorder) func(t *rapid.T) {
 	}
 	return func(t *rapid.T) {
 		c := &schemaCase{}
-		c.Schema = sgen.Draw(t, sgen.Opts{Draft: refmodel.D2020, MaxDepth: depth})
-		c.Instances = sgen.Instances(t, c.Schema, 4)
+		if rapid.IntRange(0, 5).Draw(t, "annotation-lens") == 0 {
+			// the focused annotation-flow generator of C07 (in-place applicator trees over a small
+			// shared pool of names/items), with four of its exhaustive instances
+			c7 := genC07(t)
+			c.Schema = c7.Schema
+			all := c07Instances(c7.Mode)
+			for i := 0; i < 4; i++ {
+				c.Instances = append(c.Instances, all[rapid.IntRange(0, len(all)-1).Draw(t, "c07inst")])
+			}
+			rec.Class("lens:annotation-flow(C07 generator)")
+		} else {
+			c.Schema = sgen.Draw(t, sgen.Opts{Draft: refmodel.D2020, MaxDepth: depth})
+			c.Instances = sgen.Instances(t, c.Schema, 4)
+		}
 		if n := stripUnsafeMultipleOf(c.Schema, c.Instances); n > 0 {
 			rec.ClassN("multipleOf-removed-by-construction", int64(n))
 		}
